@@ -547,3 +547,65 @@ func VH17i_independent() {
 	}
 	sock.Close()
 }
+
+// VH17k_shared_twice: the application holds several references to one message (Clone) and starts a survey with it
+// on two SURVEYOR contexts (or socket and context) one right after the other, before the first has left the socket.
+// SURVEYOR takes a private copy before it writes the survey id (MakeUnique): the two surveys go out with two
+// different ids, each carrying the body; the application's reference still shows the body and no header; each
+// context receives the response to its own survey.
+func VH17k_shared_twice() {
+	lab := "C17/shared-twice/surveyor"
+	sock := vp.New("surveyor")
+	vt.Install()
+	side := vt.Listen(sock, "a")
+	p1 := side.Peer("p1")
+	c1, e1 := sock.OpenContext()
+	c2, e2 := sock.OpenContext()
+	verif.Assert(e1 == nil && e2 == nil, lab+"/contexts")
+	if e1 != nil || e2 != nil {
+		return
+	}
+	type sender interface {
+		SendMsg(*mangos.Message) error
+		RecvMsg() (*mangos.Message, error)
+	}
+	a, b := sender(c1), sender(c2)
+	if verif.Choice("first-on-the-socket", 2) == 1 {
+		a = sock
+	}
+	body := verif.Bytes("body", 1+verif.Choice("blen", 2))
+	m := mangos.NewMessage(len(body))
+	m.Body = append(m.Body, body...)
+	m.Clone()
+	m.Clone() // three references: one per Send, one kept
+	verif.Assert(a.SendMsg(m) == nil, lab+"/send-1")
+	if verif.Choice("settle-in-between", 2) == 1 {
+		verif.Quiesce()
+	}
+	verif.Assert(b.SendMsg(m) == nil, lab+"/send-2")
+	verif.Quiesce()
+	verif.Assert(len(m.Header) == 0 && verif.BytesEq(m.Body, body), lab+"/callers-reference-changed")
+	verif.Assert(len(p1.Sent) == 2, lab+"/two-surveys-on-the-wire")
+	if len(p1.Sent) != 2 {
+		return
+	}
+	h1, h2 := p1.Sent[0].H, p1.Sent[1].H
+	verif.Assert(len(h1) == 4 && len(h2) == 4, lab+"/survey-header-length")
+	if len(h1) != 4 || len(h2) != 4 {
+		return
+	}
+	verif.Assert(!verif.BytesEq(h1, h2), lab+"/two-surveys-carry-the-same-id")
+	verif.Assert(verif.BytesEq(p1.Sent[0].B, body) && verif.BytesEq(p1.Sent[1].B, body), lab+"/survey-body-changed")
+	// the responses, second survey first
+	p1.Deliver([]byte{h2[0], h2[1], h2[2], h2[3], 'B'})
+	p1.Deliver([]byte{h1[0], h1[1], h1[2], h1[3], 'A'})
+	verif.Quiesce()
+	ra, ea := a.RecvMsg()
+	rb, eb := b.RecvMsg()
+	verif.Assert(ea == nil && len(ra.Body) == 1 && ra.Body[0] == 'A', lab+"/first-context-did-not-get-the-response-to-its-survey")
+	verif.Assert(eb == nil && len(rb.Body) == 1 && rb.Body[0] == 'B', lab+"/second-context-did-not-get-the-response-to-its-survey")
+	m.Free()
+	verif.Reach("shared-twice-checked")
+	sock.Close()
+	verif.Quiesce()
+}
